@@ -310,8 +310,12 @@ func runCase(c Case) kit.Result {
 				labels["commit-reopen"] = true
 			}
 		case "copy":
-			if m.OpsInTx > 0 || len(m.Live) > 0 {
-				m.Finalise() // production copies between transactions
+			// production copies between transactions; Copy itself also copes with un-finalised
+			// changes when no frame is open and no account awaits deletion (see C10)
+			if op.M&2 == 2 && len(m.Live) == 0 && m.OpsInTx > 0 && m.NoGhostAccounts() {
+				labels["copy-before-finalise"] = true
+			} else if m.OpsInTx > 0 || len(m.Live) > 0 {
+				m.Finalise()
 			}
 			if m.AcctDirtySinceRoot && m.Excl[sk.ClsCopyDirtyMark] {
 				m.IRoot()
